@@ -102,6 +102,12 @@ _reserved_words = {
 }
 
 
+def escape_string(s):
+    """The text of s between the quotes of a Swift string literal."""
+    return (s.replace('\\', '\\\\').replace('"', '\\"')
+            .replace('\n', '\\n').replace('\r', '\\r'))
+
+
 def fmt_obj(o):
     assert not isinstance(o, dict), "Only use for base type literals"
     if o is True:
@@ -113,7 +119,7 @@ def fmt_obj(o):
     if o == '':
         return '""'
     elif isinstance(o, str):
-        return '"{}"'.format(o)
+        return '"{}"'.format(escape_string(o))
 
     return pprint.pformat(o, width=1)
 
